@@ -1,6 +1,9 @@
 /* Harnesses for the character-level unit. */
 int gk_lead, gk_trail, gk_idx;
-void h_trimWhiteSpace_s(void) { const struct CStr* in; String_trimWhiteSpace_s(in); }
-void h_toLower(void)          { struct CStr* s; String_toLower(s); }
-void h_trimWhiteSpace_m(void) { struct CStr* s; String_trimWhiteSpace_m(s); }
-void h_cleanUp(void)          { const struct CStr* in; cleanUp(in); }
+int nondet_int(void);
+/* ghost indices are universally quantified: havoc them (file-scope objects start at 0 otherwise) */
+static void havoc_ghosts(void) { gk_lead = nondet_int(); gk_trail = nondet_int(); gk_idx = nondet_int(); }
+void h_trimWhiteSpace_s(void) { const struct CStr* in; havoc_ghosts(); String_trimWhiteSpace_s(in); }
+void h_toLower(void)          { struct CStr* s; havoc_ghosts(); String_toLower(s); }
+void h_trimWhiteSpace_m(void) { struct CStr* s; havoc_ghosts(); String_trimWhiteSpace_m(s); }
+void h_cleanUp(void)          { const struct CStr* in; havoc_ghosts(); cleanUp(in); }
